@@ -984,8 +984,9 @@ class _ExtendedSymplectic(_Integrator):
                 states_out = np.vstack([y0, y_hit])
                 return _Solution(times=times_out, states=states_out)
             else:
-                # No event - return full trajectory
-                times_out = t_vals[:trajectory.shape[0]].copy() * fwd
+                # No event - return full trajectory at the requested times; the
+                # caller (_propagate_dynsys) encodes the direction in the stamps.
+                times_out = t_vals[:trajectory.shape[0]].copy()
                 return _Solution(times=times_out, states=trajectory)
 
         # Standard non-event path
@@ -998,8 +999,10 @@ class _ExtendedSymplectic(_Integrator):
             c_omega_heuristic=self.c_omega_heuristic,
         )
 
-        # Return times with the intended sign convention (multiplying back).
-        times_out = t_vals.copy() * fwd
+        # Return the requested times, like every other integrator does for a
+        # directed system; _propagate_dynsys encodes the direction in the stamps
+        # (multiplying by ``fwd`` here as well signed them twice).
+        times_out = t_vals.copy()
 
         return _Solution(times=times_out, states=trajectory_array)
 
